@@ -27,13 +27,13 @@ func noPanic(obligation string, f func()) (ok bool) {
 	return true
 }
 
-// anchorPool: two spellings of one instant (different zones), a later instant,
-// and one a nanosecond after the first.
+// anchorPool: an instant, one a nanosecond later, the first again spelled in
+// another zone, and a much later instant.
 var anchorPool = []time.Time{
 	time.Date(2020, 1, 1, 12, 0, 0, 0, time.UTC),
-	time.Date(2020, 1, 1, 14, 0, 0, 0, time.FixedZone("plus2", 7200)),
+	time.Date(2020, 1, 1, 12, 0, 0, 1, time.UTC), // one nanosecond later
+	time.Date(2020, 1, 1, 14, 0, 0, 0, time.FixedZone("plus2", 7200)), // = anchorPool[0] in another zone
 	time.Date(2021, 6, 30, 23, 59, 59, 0, time.UTC),
-	time.Date(2020, 1, 1, 12, 0, 0, 1, time.UTC),
 }
 
 // sameInstant[i][j]: anchorPool[i] and anchorPool[j] denote the same instant.
